@@ -3,6 +3,9 @@ HTTPException._json_formatter, HTTPException.prepare and HTTPException.__call__ 
 Gallina definitions gen_init / gen_move_init / gen_forbidden_init / gen_prepare / gen_call, re-run on every check (prop.facts) and emitted into
 coq/Gen/Facts_C19.v.
 
+A second, smaller translator (end of this file, SITES) regenerates the ARGUMENT EXPRESSIONS by which the router, the
+static view and the append-slash Not Found view build their exceptions: gen_site_* : req -> raised.
+
 Fail-closed: a statement outside the SUBSET, an expression outside the PRIMITIVE TABLE, a typing surprise, a changed
 binding of a global name the table relies on -> Problem; the caller records it as a broken tie and emits the stored
 fallback text (harness/c19/gen_fallback.json, the translation of the text the reference model was written against) so
@@ -94,7 +97,10 @@ TRANSLATED = ['pyramid/httpexceptions.py:HTTPException.__init__',
               'pyramid/httpexceptions.py:HTTPForbidden.__init__',
               'pyramid/httpexceptions.py:HTTPException._json_formatter',
               'pyramid/httpexceptions.py:HTTPException.prepare',
-              'pyramid/httpexceptions.py:HTTPException.__call__']
+              'pyramid/httpexceptions.py:HTTPException.__call__',
+              # whole function = straight-line text expressions + the constructor call (translate_sites, strict)
+              'pyramid/static.py:static_view.add_slash_redirect']
+STRICT_SITES = ['static_slash']
 FALLBACK = os.path.join(HERE, 'gen_fallback.json')
 
 FIELDS = ['ob_code', 'ob_title', 'ob_expl', 'ob_tmpl', 'ob_tmpl_custom', 'ob_empty', 'ob_status', 'ob_detail',
@@ -920,13 +926,186 @@ def generate(src_root, problems):
         return j['coq'], j['meta']
 
 
+# ================================================================================================ raise sites
+# The ARGUMENT EXPRESSIONS of the places outside httpexceptions.py that build an HTTP exception from request text are
+# regenerated as well (their control flow stays shape-pinned): gen_site_<name> (request : req) : raised.
+#   request.<attr>      (r_<attr> request)   for url, path, path_info, path_url, query_string (WebOb properties: oracle)
+#   'lit', a + b, 'pre%ssuf' % x, names bound by the straight-line assignments that precede the call in its own block
+#   and in the enclosing blocks;  `if n: n = e` (one statement, no else) -> (if truthy n then e else n);
+#   `if self.debug_notfound: .. else: B` -> B (debug settings are off in every generated application);
+#   any other compound statement before the call that assigns a name the call uses: Problem
+#   callee: an exception class of the class table (its name is the class), or self.redirect_class (the default of the
+#   redirect_class parameter of __init__); arguments bind to detail / location / body_template by position or keyword
+#   (other parameters given: Problem).
+SITES = [('router', 'pyramid/router.py', 'Router.handle_request'),
+         ('static_missing', 'pyramid/static.py', 'static_view.__call__'),
+         ('static_oob', 'pyramid/static.py', 'static_view.get_resource_name'),
+         ('static_slash', 'pyramid/static.py', 'static_view.add_slash_redirect'),
+         ('append_slash', 'pyramid/view.py', 'AppendSlashNotFoundViewFactory.__call__')]
+REQ_ATTRS = ('url', 'path', 'path_info', 'path_url', 'query_string')
+
+
+def _site_expr(n, env):
+    if isinstance(n, ast.Constant) and isinstance(n.value, str):
+        return lit(n.value)
+    if isinstance(n, ast.Name):
+        if env.get(n.id) is None:
+            raise Problem('site: name %s is not a modelled text here' % n.id)
+        return env[n.id]
+    if isinstance(n, ast.Attribute) and isinstance(n.value, ast.Name) and n.value.id == 'request' and n.attr in REQ_ATTRS:
+        return '(r_%s request)' % n.attr
+    if isinstance(n, ast.BinOp) and isinstance(n.op, ast.Add):
+        return '(%s ++ %s)' % (_site_expr(n.left, env), _site_expr(n.right, env))
+    if isinstance(n, ast.BinOp) and isinstance(n.op, ast.Mod) and isinstance(n.left, ast.Constant) \
+            and isinstance(n.left.value, str) and n.left.value.count('%s') == 1 and '%' not in n.left.value.replace('%s', ''):
+        pre, suf = n.left.value.split('%s')
+        return '(%s ++ %s ++ %s)' % (lit(pre), _site_expr(n.right, env), lit(suf))
+    raise Problem('site: expression %s is outside the table' % u(n))
+
+
+def _contains(node, target):
+    return any(x is target for x in ast.walk(node))
+
+
+def _site_block(stmts, target, env):
+    """walks to the statement containing `target`, updating env with the straight-line assignments before it"""
+    for s in stmts:
+        if _contains(s, target):
+            if isinstance(s, ast.If):
+                if ast.dump(s.test) == "Attribute(value=Name(id='self', ctx=Load()), attr='debug_notfound', ctx=Load())":
+                    raise Problem('site: the call sits under debug_notfound')
+                branch = s.body if any(_contains(x, target) for x in s.body) else s.orelse
+                return _site_block(branch, target, env)
+            if isinstance(s, (ast.For, ast.While, ast.With, ast.Try)):
+                body = list(s.body)
+                if any(_contains(x, target) for x in body):
+                    return _site_block(body, target, env)
+                raise Problem('site: call in an else/handler clause of %s' % type(s).__name__)
+            return env
+        # a statement before the call
+        if isinstance(s, ast.Assign) and len(s.targets) == 1 and isinstance(s.targets[0], ast.Name):
+            try:
+                env[s.targets[0].id] = _site_expr(s.value, env)
+            except Problem:
+                env[s.targets[0].id] = None
+            continue
+        if isinstance(s, ast.If) and ast.dump(s.test) == "Attribute(value=Name(id='self', ctx=Load()), attr='debug_notfound', ctx=Load())":
+            _site_block(list(s.orelse) + [ast.Expr(value=target)], target, env)
+            continue
+        if isinstance(s, ast.If) and not s.orelse and len(s.body) == 1 and isinstance(s.test, ast.Name) \
+                and isinstance(s.body[0], ast.Assign) and len(s.body[0].targets) == 1 \
+                and isinstance(s.body[0].targets[0], ast.Name):
+            t, name = s.test.id, s.body[0].targets[0].id
+            try:
+                if env.get(t) is None or env.get(name) is None:
+                    raise Problem('unknown')
+                env[name] = '(if (truthy %s) then %s else %s)' % (env[t], _site_expr(s.body[0].value, env), env[name])
+            except Problem:
+                env[name] = None
+            continue
+        for nm in assigned_names([s]):
+            env[nm] = None
+    raise Problem('site: call not found in block')
+
+
+def translate_sites(src_root, class_names, move_names):
+    out, meta = [], {}
+    for name, rel, qual in SITES:
+        with open(os.path.join(src_root, rel)) as f:
+            tree = ast.parse(f.read())
+        node = tree
+        for part in qual.split('.'):
+            cands = [c for c in (node.body if hasattr(node, 'body') else []) if isinstance(c, (ast.FunctionDef, ast.ClassDef)) and c.name == part]
+            if len(cands) != 1:
+                raise Problem('site %s: %s:%s not found' % (name, rel, qual))
+            node = cands[0]
+        calls = [c for c in ast.walk(node) if isinstance(c, ast.Call) and (
+            (isinstance(c.func, ast.Name) and c.func.id in class_names)
+            or (isinstance(c.func, ast.Attribute) and c.func.attr == 'redirect_class'))]
+        if len(calls) != 1:
+            raise Problem('site %s: %d exception constructor calls in %s' % (name, len(calls), qual))
+        call = calls[0]
+        if name in STRICT_SITES:
+            # no pin on this function: every statement must be one the site translator follows
+            body = [x for x in node.body if not (isinstance(x, ast.Expr) and isinstance(x.value, ast.Constant))]
+            for x in body[:-1]:
+                ok = (isinstance(x, ast.Assign) and len(x.targets) == 1 and isinstance(x.targets[0], ast.Name)) or \
+                     (isinstance(x, ast.If) and not x.orelse and len(x.body) == 1 and isinstance(x.test, ast.Name)
+                      and isinstance(x.body[0], ast.Assign) and len(x.body[0].targets) == 1
+                      and isinstance(x.body[0].targets[0], ast.Name))
+                if not ok:
+                    raise Problem('site %s: statement %s is outside the subset' % (name, u(x)))
+            if not body or not isinstance(body[-1], ast.Return) or body[-1].value is not call:
+                raise Problem('site %s: the function does not end in `return <constructor call>`' % name)
+            if [a.arg for a in node.args.args] != ['self', 'request'] or node.args.vararg or node.args.kwarg \
+                    or node.args.kwonlyargs or node.decorator_list:
+                raise Problem('site %s: signature' % name)
+        env = _site_block(list(node.body), call, {})
+        if isinstance(call.func, ast.Name):
+            cls = call.func.id
+        else:
+            if ast.dump(call.func.value) != "Name(id='self', ctx=Load())":
+                raise Problem('site %s: redirect_class of something else than self' % name)
+            owner = [c for c in tree.body if isinstance(c, ast.ClassDef) and c.name == qual.split('.')[0]][0]
+            init = [f for f in owner.body if isinstance(f, ast.FunctionDef) and f.name == '__init__']
+            if len(init) != 1:
+                raise Problem('site %s: __init__ of %s' % (name, owner.name))
+            a = init[0].args
+            names = [x.arg for x in a.args]
+            if 'redirect_class' not in names:
+                raise Problem('site %s: no redirect_class parameter' % name)
+            d = a.defaults[len(a.defaults) - (len(names) - names.index('redirect_class'))]
+            sets = [s for s in init[0].body if isinstance(s, ast.Assign) and ast.dump(s.targets[0]) ==
+                    "Attribute(value=Name(id='self', ctx=Load()), attr='redirect_class', ctx=Store())"]
+            if not isinstance(d, ast.Name) or len(sets) != 1 or ast.dump(sets[0].value) != "Name(id='redirect_class', ctx=Load())":
+                raise Problem('site %s: redirect_class plumbing of __init__' % name)
+            cls = d.id
+        if cls not in class_names:
+            raise Problem('site %s: class %s is not in the class table' % (name, cls))
+        order = (['location'] if cls in move_names else []) + ['detail', 'headers', 'comment', 'body_template']
+        got = {}
+        if any(isinstance(x, ast.Starred) for x in call.args) or len(call.args) > len(order):
+            raise Problem('site %s: positional arguments' % name)
+        for p, x in zip(order, call.args):
+            got[p] = x
+        for k in call.keywords:
+            if k.arg is None or k.arg in got or k.arg not in order:
+                raise Problem('site %s: keyword %s' % (name, k.arg))
+            got[k.arg] = k.value
+        for p_ in ('detail', 'headers', 'comment', 'body_template'):      # an explicit None is the default
+            if p_ in got and isinstance(got[p_], ast.Constant) and got[p_].value is None:
+                del got[p_]
+        bad = [p for p in got if p not in ('detail', 'location', 'body_template')]
+        if bad:
+            raise Problem('site %s: arguments %s are not modelled' % (name, bad))
+        f_ = lambda p: ('(Some %s)' % _site_expr(got[p], env)) if p in got else 'None'      # noqa: E731
+        loc = _site_expr(got['location'], env) if 'location' in got else '(@nil N)'
+        out.append('Definition gen_site_%s (request : req) : raised :=\n  mkRaised %s %s %s %s.\n'
+                   % (name, lit(cls), f_('detail'), loc, f_('body_template')))
+        meta[name] = cls
+    return ''.join(out), meta
+
+
+def generate_sites(src_root, class_names, move_names, problems):
+    try:
+        return translate_sites(src_root, class_names, move_names)
+    except (Problem, OSError, SyntaxError, KeyError, IndexError, AttributeError, TypeError, ValueError) as e:
+        problems.append('site translator: %s: %s' % (type(e).__name__, e))
+        with open(FALLBACK) as f:
+            j = json.load(f)
+        return j['sites'], j['sites_meta']
+
+
 if __name__ == '__main__':
     import sys
     probs = []
     with open(os.path.join(sys.argv[1], 'pyramid/httpexceptions.py')) as f:
         text, meta = translate(ast.parse(f.read()))
     if '--write-fallback' in sys.argv:
+        from harness.c19 import factsx
+        ct = factsx.class_table(ast.parse(open(os.path.join(sys.argv[1], 'pyramid/httpexceptions.py')).read()), [])
+        st, sm = translate_sites(sys.argv[1], {e['name'] for e in ct}, {e['name'] for e in ct if e['move']})
         with open(FALLBACK, 'w') as f:
-            json.dump({'coq': text, 'meta': meta}, f, indent=1)
+            json.dump({'coq': text, 'meta': meta, 'sites': st, 'sites_meta': sm}, f, indent=1)
     print(text)
     print(meta)
